@@ -34,6 +34,15 @@ func (c *idCounter) next(r *gen.R) int64 {
 	return c.n
 }
 
+// genUID: contributors recur across blocks; a small pool makes the same uid show up with
+// different display names in different blocks (contributors rename), which is valid data.
+func genUID(r *gen.R) int32 {
+	if r.Chance(0.4) {
+		return int32(r.Range(1, 6))
+	}
+	return int32(r.Range(1, 1<<24))
+}
+
 func genStr(r *gen.R, o GenOpts) string {
 	if o.SmallStrings {
 		return r.Word()
@@ -118,7 +127,7 @@ func genInfo(r *gen.R, b *Block, o GenOpts) *Info {
 		in.Changeset = p64(r.Int64Range(1, 1<<33))
 	}
 	if all || r.Bool() {
-		in.UID = p32(int32(r.Range(1, 1<<24)))
+		in.UID = p32(genUID(r))
 	}
 	if all || r.Bool() {
 		u := genStr(r, o)
@@ -189,7 +198,7 @@ func GenGroup(r *gen.R, b *Block, kind, n int, ids *idCounter, o GenOpts) *Group
 				x.Changeset = r.Int64Range(1, 1<<33)
 			}
 			if d.HasUID {
-				x.UID = int32(r.Range(1, 1<<24))
+				x.UID = genUID(r)
 			}
 			if d.HasUserSID {
 				x.User = genStr(r, o)
